@@ -258,6 +258,19 @@ fn na() -> OpenOut {
 }
 
 thread_local! {
+    /// text (Display and Debug) of the error the last open form returned
+    static LAST_ERR: std::cell::RefCell<Option<String>> = const { std::cell::RefCell::new(None) };
+}
+
+pub fn note_err(e: &dryoc::Error) {
+    LAST_ERR.with(|c| *c.borrow_mut() = Some(format!("{} / {:?}", e, e)));
+}
+
+pub fn take_last_err() -> Option<String> {
+    LAST_ERR.with(|c| c.borrow_mut().take())
+}
+
+thread_local! {
     /// when set, the classic copying forms (and the classic stream pull) are handed a message
     /// buffer of exactly this length instead of one sized from the submitted ciphertext — a
     /// receiver that knows the expected message length, or one that reuses a larger frame buffer
@@ -285,7 +298,10 @@ fn copying(mlen: usize, s: u8, f: impl FnOnce(&mut [u8]) -> Result<(), dryoc::Er
     let v = match r {
         Err(p) => Verdict::Panic(p),
         Ok(Ok(())) => Verdict::Ok(m.clone()),
-        Ok(Err(_)) => Verdict::Err,
+        Ok(Err(e)) => {
+            note_err(&e);
+            Verdict::Err
+        }
     };
     OpenOut { v, before, after: m }
 }
@@ -298,7 +314,10 @@ fn inplace(buf: Vec<u8>, out_range: std::ops::Range<usize>, f: impl FnOnce(&mut 
     let v = match r {
         Err(p) => Verdict::Panic(p),
         Ok(Ok(())) => Verdict::Ok(b.get(out_range).map(|s| s.to_vec()).unwrap_or_default()),
-        Ok(Err(_)) => Verdict::Err,
+        Ok(Err(e)) => {
+            note_err(&e);
+            Verdict::Err
+        }
     };
     OpenOut { v, before, after: b }
 }
@@ -308,7 +327,10 @@ fn object(f: impl FnOnce() -> Result<Vec<u8>, dryoc::Error>) -> OpenOut {
     let v = match r {
         Err(p) => Verdict::Panic(p),
         Ok(Ok(m)) => Verdict::Ok(m),
-        Ok(Err(_)) => Verdict::Err,
+        Ok(Err(e)) => {
+            note_err(&e);
+            Verdict::Err
+        }
     };
     OpenOut { v, before: vec![], after: vec![] }
 }
